@@ -144,6 +144,12 @@ def classes():
             self.vtime = vtime
             self._wall_k = 0
 
+        def startup(self, graph_state, timeout=None):
+            # a slow start-up hook (e.g. homing a robot): consumes virtual wall time before the episode clock starts
+            if getattr(self, "startup_sleep", 0) and self.vtime is not None:
+                self.vtime.sleep(self.startup_sleep)
+            return True
+
         def init_params(self, rng=None, graph_state=None):
             return PParams(p=onp.array([py_param(self.pid)], dtype=onp.uint32))
 
@@ -305,6 +311,7 @@ def build_nodes(spec, xp="np", trace=None, clock="SIM", vtime=None):
         if clock == "WALL":
             wall = ([x * U for x in comp.get("script", [])], comp["nominal"] * U)
         nodes[name] = C["ProbeNode"](name, pid=ids[name], xp=xp, trace=trace, wall_script=wall, vtime=vtime, **kw)
+        nodes[name].startup_sleep = float(nd.get("startup_sleep", 0.0)) if clock == "WALL" else 0.0
     for e in spec["edges"]:
         comm = e["comm"]
         nodes[e["n"]].connect(
